@@ -677,6 +677,10 @@ def predict(S, op, world, result):
         M.new_prefix = op['as'] + ':'
         return M
 
+    if k == 'w_setattr':
+        M.wattr = (op['w'], op['attr'], op['value'])
+        return M
+
     if k in ('acquire', 'observe'):
         return M  # pure observers: nothing may change
 
@@ -729,8 +733,12 @@ def compare_with_model(S_post, M, S_pre, op):
         if extra:
             return ('effect', f'unexpected new tasks {sorted(extra)}')
     for w, wd in S_post['wbs'].items():
-        if w in S_pre['wbs'] and wd['attrs'] != S_pre['wbs'][w]['attrs']:
-            return ('frame-fields', f'{w} attributes changed')
+        if w in S_pre['wbs']:
+            exp = dict(S_pre['wbs'][w]['attrs'])
+            if getattr(M, 'wattr', None) and M.wattr[0] == w:
+                exp[M.wattr[1]] = M.wattr[2]
+            if wd['attrs'] != exp:
+                return ('frame-fields', f'{w} attributes are {wd["attrs"]}, expected {exp}')
     return None
 
 
